@@ -72,9 +72,35 @@ type Clause struct {
 	Default bool // clause of a default contract (a prohibition; may be vacuous)
 }
 
-func (c *Clause) appliesTo(prop string, fc *FuncContract) bool {
+// crossCutting properties are claimed on almost every function for one clause of
+// their own (no secret in logs/storage, error outcomes, frame): for them the
+// tags select. For every other property the thorough tier checks a function that
+// lists the property against ALL its clauses: what one property's clause pins down is
+// usually what another property relies on as well (rounds 2-5 of the seeded
+// changes: 15 of 41 misses were caught by "another property's" clause).
+var crossCutting = map[string]bool{"C17": true, "C18": true, "C20": true}
+
+// allClausesMode is switched on by the thorough tier (the quick tier goes by the
+// tags: with all clauses the two 2FA validators alone cost about 90 s per property).
+var allClausesMode bool
+
+// taggedFor: the clause is claimed for the property by its own tags (or is untagged).
+func (c *Clause) taggedFor(prop string, fc *FuncContract) bool {
 	ps := c.Props
 	if len(ps) == 0 {
+		ps = fc.Props
+	}
+	for _, p := range ps {
+		if p == prop {
+			return true
+		}
+	}
+	return false
+}
+
+func (c *Clause) appliesTo(prop string, fc *FuncContract) bool {
+	ps := c.Props
+	if len(ps) == 0 || (allClausesMode && !crossCutting[prop]) {
 		ps = fc.Props
 	}
 	for _, p := range ps {
